@@ -831,6 +831,9 @@ func (st *evalState) evalCalleeAt(callee *ssa.Function, a int64) (int64, bool) {
 // constArrayOf: addr is a local array (Alloc) or a package-level array variable all of whose element stores are
 // constants at constant indices (and, for a local, nothing else takes its address): returns index → value.
 func constArrayOf(addr ssa.Value) (map[int64]int64, bool) {
+	if g, ok := addr.(*ssa.Global); ok {
+		return globalConstArray(g)
+	}
 	al, ok := addr.(*ssa.Alloc)
 	if !ok {
 		return nil, false
@@ -936,4 +939,95 @@ func (e *bsetEngine) outcomeSig(fn *ssa.Function, isSym func(ssa.Value) bool, d 
 	}
 	sort.Strings(ks)
 	return strings.Join(ks, ",")
+}
+
+var globalConstArrayCache = map[*ssa.Global]map[int64]int64{}
+
+// globalConstArray: a package-level array variable whose elements are written only by its package initialiser, with
+// constants at constant indices, and which no other instruction of its package takes apart except to read an element
+// (unset elements are the zero value): returns index → value.
+func globalConstArray(g *ssa.Global) (map[int64]int64, bool) {
+	if t, ok := globalConstArrayCache[g]; ok {
+		return t, t != nil
+	}
+	globalConstArrayCache[g] = nil
+	arr, ok := deref(g.Type()).Underlying().(*types.Array)
+	if !ok || g.Pkg == nil {
+		return nil, false
+	}
+	if g.Object() != nil && g.Object().Exported() {
+		return nil, false // other packages could write it
+	}
+	tab := map[int64]int64{}
+	for i := int64(0); i < arr.Len(); i++ {
+		tab[i] = 0
+	}
+	good := true
+	var visit func(fn *ssa.Function)
+	seen := map[*ssa.Function]bool{}
+	visit = func(fn *ssa.Function) {
+		if fn == nil || seen[fn] || fn.Blocks == nil {
+			return
+		}
+		seen[fn] = true
+		isInit := fn.Name() == "init" && fn.Parent() == nil
+		eachInstr(fn, func(in ssa.Instruction) {
+			uses := false
+			for _, op := range in.Operands(nil) {
+				if op != nil && *op == ssa.Value(g) {
+					uses = true
+				}
+			}
+			if !uses {
+				return
+			}
+			switch x := in.(type) {
+			case *ssa.IndexAddr:
+				for _, rr := range refsOf(x) {
+					switch y := rr.(type) {
+					case *ssa.UnOp, *ssa.DebugRef:
+					case *ssa.Store:
+						i, ok1 := constInt(x.Index)
+						v, ok2 := constInt(y.Val)
+						if !ok2 {
+							if cb, isC := y.Val.(*ssa.Const); isC && cb.Value != nil && cb.Value.Kind() == constant.Bool {
+								v, ok2 = b2i(constant.BoolVal(cb.Value)), true
+							}
+						}
+						if y.Addr != ssa.Value(x) || !isInit || !ok1 || !ok2 {
+							good = false
+							return
+						}
+						tab[i] = v
+					default:
+						good = false
+					}
+				}
+			case *ssa.UnOp, *ssa.DebugRef:
+			default:
+				good = false
+			}
+		})
+		for _, a := range fn.AnonFuncs {
+			visit(a)
+		}
+	}
+	for _, m := range g.Pkg.Members {
+		switch y := m.(type) {
+		case *ssa.Function:
+			visit(y)
+		case *ssa.Type:
+			for _, recv := range []types.Type{y.Type(), types.NewPointer(y.Type())} {
+				ms := g.Pkg.Prog.MethodSets.MethodSet(recv)
+				for i := 0; i < ms.Len(); i++ {
+					visit(g.Pkg.Prog.MethodValue(ms.At(i)))
+				}
+			}
+		}
+	}
+	if !good {
+		return nil, false
+	}
+	globalConstArrayCache[g] = tab
+	return tab, true
 }
